@@ -15,7 +15,7 @@ import re
 import shutil
 import tempfile
 
-from . import common as C
+from . import common as C, genarith
 
 IMPORTS = "From SV Require Import Run_DominionCvr.\nOpen Scope Z_scope."
 ANCHORS = [("shangrla/formats/Dominion.py", ["Dominion.read_cvrs", "Dominion.read_cvrs_directory"])]
@@ -203,6 +203,8 @@ def gen_session(rng, layout, malformed=False):
     else:
         s["Modified"] = None
     s["mod_first"] = rng.random() < 0.5
+    if rng.random() < 0.5:                 # any combination of the two blocks' IsCurrent flags, or none
+        s["iscur"] = {k: rng.choice([True, False, None]) for k in ("Original", "Modified")}
     return s
 
 
@@ -213,7 +215,9 @@ def body_json(rep_, b, is_current):
         return {"Id": raw_of(cn["id"]), "ManifestationId": 1000 + cn["id"], "Undervotes": 0, "Overvotes": 0, "OutstackConditionIds": [],
                 "Marks": [{"CandidateId": raw_of(c), "ManifestationId": 5000 + c, "PartyId": 1, "Rank": (float(r) if fl and r >= 0 else r),
                            "MarkDensity": 80, "IsAmbiguous": False, "IsVote": iv, "OutstackConditionIds": []} for (c, r, iv) in cn["marks"]]}
-    d = {"PrecinctPortionId": 23, "BallotTypeId": 3, "IsCurrent": is_current}
+    d = {"PrecinctPortionId": 23, "BallotTypeId": 3}
+    if is_current is not None:             # the block's own IsCurrent flag: true, false or absent — read_cvrs does not consult it
+        d["IsCurrent"] = is_current
     if b["layout"] in ("cards", "both"):
         d["Cards"] = [{"Id": 100 + i, "KeyInId": 100 + i, "PaperIndex": i, "Contests": [con(c) for c in cd], "OutstackConditionIds": []}
                       for i, cd in enumerate(b["cards"])]
@@ -254,7 +258,7 @@ def session_json(s, mod_first=None, rep_=None):
     keys = ["Modified", "Original"] if mod_first else ["Original", "Modified"]
     for i, k in enumerate(keys):
         if s[k] is not None:
-            d[k] = body_json(rep_, s[k], is_current=(k == "Modified" or s["Modified"] is None))
+            d[k] = body_json(rep_, s[k], is_current=s.get("iscur", {}).get(k, k == "Modified" or s["Modified"] is None))
         if i == 0:
             d["VotingSessionIdentifier"] = ""
     if rep_ and rep_.get("reshape") is not None:
@@ -690,5 +694,7 @@ def run(ctx, res):
                 "candidate or a session with both Original and Modified, distinct by (options, export)")
     res.samples = [case_json(c) for c in cases[:3]]
     res.stats = stats
+    # regenerated tie: whole-function skeletons of the anchored functions + lemmas against the hand model
+    genarith.regenerate(ctx.pid, "tree_skeletons", res)
     res.assumptions = ["json.load, file I/O, glob + sorted, the image-mask regular expression (masks are generated from templates whose "
                        "number the model receives) are trusted; ids are parsed back from the 'tab-batch-record' strings by the harness"]
